@@ -15,6 +15,7 @@ import json
 import multiprocessing as mp
 import os
 import queue
+import signal
 import time
 import traceback
 from fractions import Fraction
@@ -33,6 +34,20 @@ class PathAbort(BaseException):
         super().__init__(reason)
         self.reason = reason
         self.inconclusive = inconclusive
+        s = sym._SESSION
+        if s is not None and getattr(s, "dead", None) is None and reason != "violation":
+            # survive bare `except:` clauses in the code under test
+            s.dead = reason
+            s.dead_inconclusive = inconclusive
+
+
+class PathTimeout(BaseException):
+    pass
+
+
+class OutsideClaim(BaseException):
+    """The path entered code that the harness declares outside its claim (e.g. an RNG trial loop).  Counted and
+    reported in the evidence as `outside_claim_paths`; neither success nor failure."""
 
 
 class Obl:
@@ -371,17 +386,30 @@ class Session:
         self.pc = []
         self.obligations = []
         self.dead = None
+        self.dead_inconclusive = True
         self.n_outcomes = 0
         self.outcome_vars = []
         self.aux_vars = []
         self.model = None
         self.info = {}
         self.solver.push()
+        limit = getattr(harness, "path_timeout_s", 180)
+        timed_out = []
+
+        def on_alarm(signum, frame):
+            timed_out.append(1)
+            raise PathTimeout(f"path exceeded {limit}s")
+
+        old_handler = signal.signal(signal.SIGALRM, on_alarm)
+        signal.setitimer(signal.ITIMER_REAL, limit)
         try:
             with self:
                 harness.body(self, spec)
             if self.dead is not None:
-                res.status, res.reason = "inconclusive", self.dead
+                if getattr(self, "dead_inconclusive", True):
+                    res.status, res.reason = "inconclusive", self.dead
+                else:
+                    res.status, res.reason = "infeasible", self.dead
         except PathAbort as e:
             if e.inconclusive:
                 res.status, res.reason = "inconclusive", e.reason
@@ -389,6 +417,17 @@ class Session:
                 res.status = "ok"
             else:
                 res.status, res.reason = "infeasible", e.reason
+        except OutsideClaim as e:
+            res.status, res.reason = "outside", str(e)
+        except PathTimeout as e:
+            # a python-level loop of the code under test did not finish: report it as a violation candidate
+            # (the concrete replay decides whether the real code really does not terminate on the model's input)
+            try:
+                signal.setitimer(signal.ITIMER_REAL, 0)
+                m = self._ensure_model()
+                self.obligations.append(Obl("terminates", "violated", self.model_values(m), f"{e} @ {_where()}"))
+            except BaseException as e2:  # noqa
+                res.status, res.reason = "inconclusive", f"path time limit ({e2})"
         except Unsupported as e:
             res.status, res.reason = "inconclusive", "Unsupported: " + str(e) + " @ " + _where()
         except Exception as e:  # uncaught exception from the code under test on a feasible path
@@ -408,6 +447,8 @@ class Session:
                     res.pc_sample = [str(p[1])[:120] + ("" if p[0] != "branch" else f" = {p[2]}") for p in self.pc[:6]]
                 except Exception:
                     pass
+            signal.setitimer(signal.ITIMER_REAL, 0)
+            signal.signal(signal.SIGALRM, old_handler)
             self.solver.pop()
             self.model = None
         res.decisions = list(self.decisions)
@@ -545,10 +586,19 @@ def replay_concrete(harness, model):
 
     # the only environment control in a replay: RNG draws return the solver model's outcomes, in order
     npr.randint, npr.choice = randint, choice
+    limit = getattr(harness, "replay_timeout_s", 60)
+
+    def on_alarm(signum, frame):
+        raise PathTimeout(f"replay exceeded {limit}s")
+
+    old_handler = signal.signal(signal.SIGALRM, on_alarm)
+    signal.setitimer(signal.ITIMER_REAL, limit)
     try:
         spec = harness.declare(S)
         S.declared = True
         harness.body(S, spec)
+    except PathTimeout as e:
+        S.failed.append(("terminates", f"{e}: the real code did not finish on this input"))
     except ConcreteFailure as e:
         return False, S.failed, str(e)
     except Exception as e:
@@ -560,6 +610,8 @@ def replay_concrete(harness, model):
                 break
         S.failed.append(("no-exception", f"{type(e).__name__}: {e} @ {where}"))
     finally:
+        signal.setitimer(signal.ITIMER_REAL, 0)
+        signal.signal(signal.SIGALRM, old_handler)
         npr.randint, npr.choice = saved
     return bool(S.failed), S.failed, None
 
@@ -573,6 +625,8 @@ class Totals:
         self.infeasible = 0
         self.inconclusive = 0
         self.inconclusive_reasons = {}
+        self.outside = 0
+        self.outside_reasons = {}
         self.obligations = 0
         self.discharged = 0
         self.unknown = 0
@@ -590,6 +644,11 @@ class Totals:
     def add_path(self, res, prefix):
         if res.status == "infeasible":
             self.infeasible += 1
+            return
+        if res.status == "outside":
+            self.outside += 1
+            self.outside_reasons[res.reason] = self.outside_reasons.get(res.reason, 0) + 1
+            self.paths += 1
             return
         self.paths += 1
         self.max_depth = max(self.max_depth, len(res.decisions))
@@ -637,6 +696,9 @@ class Totals:
         self.inconclusive += o.inconclusive
         for k, v in o.inconclusive_reasons.items():
             self.inconclusive_reasons[k] = self.inconclusive_reasons.get(k, 0) + v
+        self.outside += o.outside
+        for k, v in o.outside_reasons.items():
+            self.outside_reasons[k] = self.outside_reasons.get(k, 0) + v
         self.obligations += o.obligations
         self.discharged += o.discharged
         self.unknown += o.unknown
